@@ -5,6 +5,14 @@ import json, subprocess
 TECH = "contract-based deductive verification: weakest-precondition VCs generated over go/ssa of the working tree, discharged by z3/cvc5"
 
 CLAIMED = {
+ "C01": dict(
+   text="Proof with a pointwise ghost counter: for an arbitrary fixed 16-bit encoding gm, each of the 13 generator functions raises the count of Alloc(gm) calls by exactly one iff gm lies in the slice of the rules it is responsible for (loop invariants over the bit-iteration loops, promotion loops unrolled), GenNoisy and GenNotNoisy sum their callees, and lemma slicesArePseudo shows the 18 slices add up to exactly [pseudo(pos, gm)] for every valid position: every pseudo-legal move is generated exactly once and nothing else. Scenario legalityFilter shows that MakeMove followed by InCheck(mover) is false iff the move is legal in the rule specification (the filter used by perft and the search).",
+   note="Alloc's ghost effect is the definition of the counter (trusted); the move store's capacity is not modelled. Positions reached by play are covered through the universally quantified valid position; the lemma that legal moves preserve validity (measured 556 s unsplit during design) is not re-run in this revision. debug.perft itself is not under contract (its loop over the frame is the consumer pattern only).",
+   ref="DESIGN.md section 5 C01"),
+ "C16": dict(
+   text="Proof of the history-band clause: History.Add, Continuation.Add and CaptHist.Add keep an arbitrary cell within [-1024, 1024] for every int16 bonus (gravity lemma over the exact clamp/abs/multiply/divide formula, 64-bit intermediate), the Clear functions zero every cell (loop invariants / whole-array store), LookUp returns the addressed cell, and RankQuiet, a sum of at most three cells, stays within [-3072, 3072], strictly inside the gap below the capture bands and above the already-yielded sentinel.",
+   note="Not yet under contract in this revision: RankNoisy's bands, heur.init's layout assertion, and the picker's per-call state machine (yield order, sentinel marking); the exactly-once clause over a whole iteration is therefore not claimed yet. No-other-writers of the history tables is by inspection (fields are unexported and only Add/Clear store to them).",
+   ref="DESIGN.md section 5 C16"),
  "C02": dict(
    text="Proof by contracts on MakeMove, CanEnPassant, IsAttacked/InCheck and the attack tables (C12), for a fully symbolic board and move: quick tier discharges side to move, castling rights (NewCastles vs the rule), halfmove clock, fullmove number, hash-history push and the e.p. field (target recorded iff a legal e.p. capture exists: CanEnPassant == existsLegalEP of the rule spec, 16 colour x file cases; this obligation found defect F1, repaired). The piece-placement clause (all six piece sets and both colour sets equal the rule successor) is discharged in the thorough tier (about 200 s, unsplit). The halfmove clock obligation over mathematical integers fails exactly for clock 127 (int8 wrap): known finding F4.",
    note="MakeMove is verified under the local precondition `movable` + `lightPos`; lemma movableFromPseudo shows every pseudo-legal move of a valid position satisfies it. Not covered: uci.applyMoves/parseUCIMove (string handling) are not under contract, so the `position ... moves` path relies on C05's gate only; chains of moves follow by induction over the single-step contract (validity preservation lemma not mechanised in this revision).",
